@@ -16,12 +16,26 @@ static Json::Value gen() {
   o.prof.unkillable_pct = 15;
   o.prof.oomd_xattr_pct = 25;
   Json::Value sc = genKillScenario(o);
+  // a prekill hook that needs a few polls: the action answers ASYNC_PAUSED while it waits
+  if (P(30)) {
+    Json::Value h(Json::objectValue);
+    h["name"] = "vp_hook";
+    h["args"]["id"] = "h0";
+    h["args"]["cgroup"] = P(70) ? "/" : "*,*/*,*/*/*";
+    sc["config"]["prekill_hooks"].append(h);
+    Json::Value polls(Json::arrayValue);
+    int n = R(1, 3);
+    for (int i = 0; i < n; i++) polls.append(P(25) ? 0 : (P(85) ? R(1, 4) : -1));
+    sc["scripts"]["hooks"]["h0"]["polls"] = polls;
+    sc["meta"]["hook"] = true;
+  }
   // repeated kills: short ruleset delays; pre-existing counters; silence-logs
   for (auto& rs : sc["config"]["rulesets"]) {
     if (P(70)) rs["post_action_delay"] = "0";
     for (auto& a : rs["actions"]) {
       if (a["args"].isMember("post_action_delay") && P(70)) a["args"]["post_action_delay"] = "0";
     }
+    if (sc["meta"].get("hook", false).asBool() && P(70)) rs["prekill_hook_timeout"] = std::to_string(R(0, 12));
     int sl = W({50, 15, 20, 15});
     if (sl == 1) rs["silence-logs"] = "engine";
     if (sl == 2) rs["silence-logs"] = "plugins";
@@ -56,6 +70,7 @@ static Verdict run(const Json::Value& sc) {
   int expectedKills = 0;
   std::map<int, int> lastRun; // ruleset -> last tick its kill plugin ran
   std::map<int, bool> expectResume;
+  std::map<int, bool> hookOutstanding; // ruleset -> a prekill hook invocation object is alive
   std::map<uint64_t, int> attemptsPerCgroup;
   for (auto& inv : invs) {
     if (inv.rs >= (int)rulesets.size()) continue;
@@ -66,7 +81,18 @@ static Verdict run(const Json::Value& sc) {
     bool kernelkill = args.get("kernelkill", "false").asString() == "true";
     bool always = args.get("always_continue", "false").asString() == "true";
     std::string where = " (tick " + std::to_string(inv.tick) + ", ruleset " + std::to_string(inv.rs) + ", " + plugin + ")";
-    bool ran = inv.pre_ran || expectResume[inv.rs] || !inv.attempts.empty();
+    // is the action still waiting for its prekill hook when this tick's run ends? An invocation object
+    // exists from "fire" to "destroy" (it is destroyed before the first signal and when the plugin gives
+    // up on it); it may live across ticks
+    bool sawHook = false;
+    for (auto* e : inv.all) {
+      if (e->k != "hook") continue;
+      sawHook = true;
+      if (e->s == "fire") hookOutstanding[inv.rs] = true;
+      if (e->s == "destroy") hookOutstanding[inv.rs] = false;
+    }
+    bool waiting = hookOutstanding[inv.rs];
+    bool ran = inv.pre_ran || expectResume[inv.rs] || !inv.attempts.empty() || sawHook;
     bool resumed = expectResume[inv.rs];
     expectResume[inv.rs] = false;
     // kmsg "oomd kill" lines of this invocation
@@ -157,6 +183,12 @@ static Verdict run(const Json::Value& sc) {
         if (inv.after_ran) v.fail("kill_by_pg_scan did not pause on its first sampling tick" + where);
         expectResume[inv.rs] = true;
         v.labels.push_back("pgscan_two_tick");
+      } else if (waiting) {
+        if (inv.after_ran) v.fail(std::string("next action ran although the kill action is still waiting for its prekill hook") + (always ? " (always_continue)" : "") + where);
+        if (!klines.empty()) v.fail("kill record written while the prekill hook has not finished" + where);
+        expectResume[inv.rs] = true;
+        v.labels.push_back("waiting_for_hook");
+        if (always) v.nontrivial = true;
       } else {
         bool killed = dry ? !klines.empty() : signalledAttempts > 0;
         bool expectAfter = !killed || always;
